@@ -5,5 +5,5 @@ CONSTANTS
   KindSet <- AllKinds
 INIT Init
 NEXT Next
-INVARIANTS TypeOK ReplyMatches GlueSound ReferralSound NoForeignCached NoForeignUsed NeverDialled NoRelayOnHit Emit
+INVARIANTS TypeOK ReplyMatches GlueSound ReferralSound NoForeignCached NoForeignUsed NeverDialled VictimTruth NoRelayOnHit Emit
 CHECK_DEADLOCK FALSE
